@@ -38,6 +38,10 @@ partial def loop (h : IO.FS.Stream) (s : St) : IO Unit := do
       let g := newNode s.g x.toNat! (nums rest)
       if s.mode == "strict" && !strictOk g then IO.println "err Inconsistent"; loop h s
       else IO.println "ok"; loop h { s with g := g, kinds := s.kinds ++ [(x.toNat!, k == "I")] }
+    | ["newtwin", x, _, k] =>      -- an interface with the same name and module as an existing one: a node of its own
+      let g := newNode s.g x.toNat! (nums rest)
+      if s.mode == "strict" && !strictOk g then IO.println "err Inconsistent"; loop h s
+      else IO.println "ok"; loop h { s with g := g, kinds := s.kinds ++ [(x.toNat!, k == "I")] }
     | ["set", x] =>
       let g := setBases s.g x.toNat! (nums rest)
       if s.mode == "strict" && !strictOk g then IO.println "err Inconsistent"; loop h s
